@@ -360,17 +360,25 @@ def run_registry_history(case):
 
     def node_iter(obj):
         return iter(obj.kids)
+    def rec_items(obj):
+        return iter(sorted(obj.items()))
     out = {'problems': []}
     for exact in (True, False):
-        for op in ('get', 'iterate'):
+        for op in ('get', 'iterate', 'other-op', 'no-op'):
             def register(g):
                 if op == 'get':
                     g.register(Rec, get=handler, exact=exact)
-                else:
+                elif op == 'iterate':
                     g.register(Node, iterate=node_iter, exact=exact)
+                elif op == 'other-op':
+                    # the registration names ANOTHER operation than the one looked up before: the handlers it derives for the
+                    # operations it does not name (a dict subclass gets getattr for get) replace what was inherited all the same
+                    g.register(Rec, iterate=rec_items, exact=exact)
+                else:
+                    g.register(Rec, exact=exact)
 
             def call(g):
-                if op == 'get':
+                if op in ('get', 'other-op', 'no-op'):
                     return _outcome(lambda: g.glom(Rec(a=1), 'a'))
                 return _outcome(lambda: g.glom(Node(), [glom.T]))
             warm = glom.Glommer()
